@@ -793,6 +793,36 @@ func commandSweep() {
 				rig.Stop()
 			}
 		}
+		// RefreshCmd takes effect once: the frame after a refresh frame is an ordinary one again (it writes
+		// what an ordinary frame of the unchanged screen wrote before the refresh)
+		{
+			other := ns[len(ns)-1]
+			wd, rig := startRig(t, map[string]bool{})
+			wd.focus(other)
+			wd.cmdOn[other+":m"] = vxfw.RedrawCmd{}
+			wd.cmdOn[other+":r"] = vxfw.BatchCmd{vxfw.RefreshCmd{}, vxfw.RedrawCmd{}}
+			frameBytes := func(id string) int {
+				var b0, b1 int
+				rig.Con.With(func(*refterm.Terminal) {})
+				b0 = rig.Con.Bytes
+				rig.Post(marked{id})
+				rig.Tick()
+				b1 = rig.Con.Bytes
+				return b1 - b0
+			}
+			frameBytes("m")
+			ordinary := frameBytes("m")
+			refresh := frameBytes("r")
+			after := frameBytes("m")
+			r.Count("command_cases", 1)
+			if after != ordinary {
+				r.Violation("C15|command|RefreshCmd|sticks", 0, detail{Tree: t.name, Setup: "focus " + other, Event: "RedrawCmd, RedrawCmd, RefreshCmd+RedrawCmd, RedrawCmd",
+					Why: fmt.Sprintf("an ordinary frame of the unchanged screen wrote %d bytes, the refresh frame %d, the ordinary frame after it %d: the refresh is still in effect", ordinary, refresh, after)})
+			} else {
+				r.Distinct(explore.Hash("refresh-once", t.name))
+			}
+			rig.Stop()
+		}
 		// delegation: the newly focused widget hands the focus on from its FocusIn handler (a container
 		// passing it to its input field): two focus changes, each with one focus-out and one focus-in, and
 		// the next event goes to the final widget
@@ -938,7 +968,7 @@ func main() {
 	n := r.Get("routing_cases") + r.Get("hover_cases") + r.Get("command_cases") + r.Get("notification_cases") + r.Get("relayout_cases")
 	r.Finish(explore.Coverage{
 		States: -1, Transitions: n, Traces: n, Evaluations: n,
-		Rule:       "8 widget trees (1-4 nodes, depth <= 3, disjoint and overlapping siblings with both z orders) on a 6x3 screen with a 5x3 root; routing: every capturer mask x every focus position x every assignment of a consuming phase to at most two nodes x {key (injected as terminal input), custom event}, and a press at every screen cell, each compared with a reference router (capture root-down, target, bubble up, stop at the first consumer; the target's own capture handler left open); hover: every sequence of <= n steps over {pointer motion at 6 points incl. outside the root, terminal focus out/in, frame} followed by a focus-out and a frame: per widget enter/leave must alternate starting with enter, end closed, and no enter may arrive between a terminal focus-out and the next pointer or focus-in event; notifications: with every widget consuming MouseEnter/MouseLeave/FocusIn/FocusOut (delivered outside the three phases), after each of 6 notification-raising steps the next key (arriving in the same read) is routed in full, for every capturer mask and focus position; re-layout within a frame: a menu opening under the resting pointer grows an item from its MouseEnter handler (the frame is laid out twice), the next press at each of the 15 cells follows the frame that was shown; re-layout: a focused leaf drawn alternately under two parents, a key after each frame follows the new ancestor chain, for every capturer mask; focus: every (old, new) pair gets exactly one focus-out and one focus-in; delegation: for every (old, via, new) triple with via answering FocusIn by focusing new, the four notifications in order and the next event targeted at new; commands: Redraw, Refresh, Quit, batches, nested batches each take effect exactly once. All through the real App.Run on a fake console, stepped with virtual frame ticks. distinct = cases that passed",
+		Rule:       "8 widget trees (1-4 nodes, depth <= 3, disjoint and overlapping siblings with both z orders) on a 6x3 screen with a 5x3 root; routing: every capturer mask x every focus position x every assignment of a consuming phase to at most two nodes x {key (injected as terminal input), custom event}, and a press at every screen cell, each compared with a reference router (capture root-down, target, bubble up, stop at the first consumer; the target's own capture handler left open); hover: every sequence of <= n steps over {pointer motion at 6 points incl. outside the root, terminal focus out/in, frame} followed by a focus-out and a frame: per widget enter/leave must alternate starting with enter, end closed, and no enter may arrive between a terminal focus-out and the next pointer or focus-in event; notifications: with every widget consuming MouseEnter/MouseLeave/FocusIn/FocusOut (delivered outside the three phases), after each of 6 notification-raising steps the next key (arriving in the same read) is routed in full, for every capturer mask and focus position; re-layout within a frame: a menu opening under the resting pointer grows an item from its MouseEnter handler (the frame is laid out twice), the next press at each of the 15 cells follows the frame that was shown; re-layout: a focused leaf drawn alternately under two parents, a key after each frame follows the new ancestor chain, for every capturer mask; focus: every (old, new) pair gets exactly one focus-out and one focus-in; delegation: for every (old, via, new) triple with via answering FocusIn by focusing new, the four notifications in order and the next event targeted at new; commands: Redraw, Refresh, Quit, batches, nested batches each take effect exactly once (incl.: the frame after a refresh frame writes what an ordinary frame wrote before). All through the real App.Run on a fake console, stepped with virtual frame ticks. distinct = cases that passed",
 		Exhaustive: true,
 		Bounds:     map[string]any{"hover_sequence_len": r.Pick(3, 4)},
 		Assumptions: []string{"whether the focused/target widget's own CaptureEvent runs is not fixed by the property and is accepted either way",
